@@ -301,10 +301,11 @@ example : (run allKnown { marks := [], events := [] }
     = [[c 1 0 0], [c 1 0 1, c 2 1 1], []] := by decide
 
 -- a two-site history: site 1 imports room 1, site 0 creates, moves day, deletes; site 1 ingests the
--- tombstone and announces both the deletion day and the day of the deleted version
+-- tombstone and announces the deletion day, the day of the deleted version and the day of the version it held
+-- (marks are a set in the database; the model keeps duplicates)
 example : (runOps (init Defects.asImplemented 2)
       [.room 0 1, .pull 1 0 1, .new 0 1 1 0, .pull 1 0 1, .day 2, .del 0 1, .pull 1 0 1]).2.drop 6
-    = [.obs [.data [c 1 0 2, c 1 0 0]] [c 1 0 2]] := by decide
+    = [.obs [.data [c 1 0 2, c 1 0 0, c 1 0 0]] [c 1 0 2]] := by decide
 
 -- the guard of `C18_partial` holds for a reference deletion of an existing reference (reachable state)
 example : opGuard (runOps (init Defects.asImplemented 1)
